@@ -184,7 +184,33 @@ let run_case op t =
     let legs = List.map (fun v -> run_one "bits" { rest = [ ty; v ] }) vals in
     (String.concat " ; " (List.map fst legs), String.concat " ; " (List.map snd legs))
   end
-  else if op <> "row" && op <> "rox" then run_one op t
+  else if op <> "row" && op <> "rox" && op <> "swp" && op <> "swx" then run_one op t
+  else if op = "swp" || op = "swx" then begin
+    (* as row / rox, the legs digested (same two polynomial hashes as harness.cpp): "ok n=<count> h=<a>.<b> bad=<first y
+       whose model sub-leg differs from the spec sub-leg, or ->" *)
+    let lo = next_int t in
+    let hi = next_int t in
+    let sub = next_str t in
+    let args = t.rest in
+    let ma = ref 7 and mb = ref 11 and sa = ref 7 and sb = ref 11 in
+    let add a b s =
+      String.iter (fun c -> a := (!a * 1000003 + Char.code c) mod 2147483647; b := (!b * 999983 + Char.code c) mod 2147483629) s;
+      a := (!a * 1000003 + 59) mod 2147483647; b := (!b * 999983 + 59) mod 2147483629 in
+    let bad = ref "-" in
+    let n = ref 0 in
+    for y = lo to hi do
+      let tk =
+        if op = "swx" && args <> [] then
+          (let r = List.rev args in { rest = List.rev (List.hd r :: string_of_int y :: List.tl r) })
+        else { rest = args @ [ string_of_int y ] } in
+      let (m, s) = run_one sub tk in
+      let m = if m = "" then "void" else m in
+      let s = if s = "" || s = "na" then m else s in
+      add ma mb m; add sa sb s; incr n;
+      if !bad = "-" && m <> s then bad := string_of_int y
+    done;
+    (Printf.sprintf "ok n=%d h=%d.%d bad=%s" !n !ma !mb !bad, Printf.sprintf "ok n=%d h=%d.%d bad=-" !n !sa !sb)
+  end
   else begin
     let lo = next_int t in
     let hi = next_int t in
